@@ -380,6 +380,15 @@ pub(crate) fn add_int_multinom<W, R, T>(
     )
 }
 
+/// n * (n-1) * .. * (n-k+1), the number of k-permutations of n items, for k <= n, or None when it does not fit a usize
+fn checked_falling_factorial(n: usize, k: usize) -> Option<usize> {
+    let mut r: usize = 1;
+    for j in 0..k {
+        r = r.checked_mul(n - j)?;
+    }
+    Some(r)
+}
+
 pub(crate) fn add_int_permutation<W, R, T>(
     scope: &mut RootCompilationScope<W, R, T>,
 ) -> Result<(), CompilationError> {
@@ -398,9 +407,11 @@ pub(crate) fn add_int_permutation<W, R, T>(
             if k > n{
                 return xerr(ManagedXError::new("k cannot be greater than n", rt)?);
             }
-            let total = (n-k+1..=n).product();
-            if i >= total{
-                return xerr(ManagedXError::new("i too large", rt)?);
+            // when the number of permutations does not fit a usize, every i is below it
+            if let Some(total) = checked_falling_factorial(n, k){
+                if i >= total{
+                    return xerr(ManagedXError::new("i too large", rt)?);
+                }
             }
             rt.can_allocate(k)?;
             let mut ret = Vec::with_capacity(k);
